@@ -1,6 +1,6 @@
 (* C06 property theorems ONLY (each closed by an already proved lemma) + assumptions. *)
 From Coq Require Import Reals List NArith Bool Arith Lia.
-From RV Require Import Common.Num Common.RealNum C05.Types Gen.Descriptors C06.Model C06.Run C06.Diff C06.Index C06.Cadence C06.CadenceR C06.CadenceNum C06.Members C06.Time C07.Prefix C06.Writer.
+From RV Require Import Common.Num Common.RealNum C05.Types Gen.Descriptors C06.Model C06.Run C06.Diff C06.Index Gen.C06Heartbeat C06.Heartbeat C06.Cadence C06.CadenceR C06.CadenceNum C06.Members C06.Time C07.Prefix C06.Writer.
 Import ListNotations.
 Open Scope N_scope.
 
@@ -79,6 +79,20 @@ Print Assumptions C06_writer_produces_chain.
 
 Theorem C06_first_file_is_archive : forall c h fs0, first_file c h fs0 = archive c h fs0 [].
 Proof. exact first_file_archive. Qed.
+
+(* the cadence state a snapshot stores is the live one: in all three branches of the heartbeat (statement order
+   regenerated from simulationarchive.c) the threshold is advanced before the save, so snapshot.next(_step) equals the
+   value the live simulation continues with *)
+Theorem C06_snapshot_stores_live_schedule : forall (T : Type) (adv : T -> T) (next : T),
+  hb_exec adv hb_order_interval next None = (adv next, Some (adv next)) /\
+  hb_exec adv hb_order_step next None = (adv next, Some (adv next)) /\
+  hb_exec adv hb_order_walltime next None = (adv next, Some (adv next)).
+Proof. exact stores_live_schedule. Qed.
+Print Assumptions C06_snapshot_stores_live_schedule.
+
+Theorem C06_hb_step_is_exec : forall auto next s, (next <=? s)%N = true ->
+  hb_step auto next s = (true, fst (hb_exec (fun x => (x + auto)%N) hb_order_step next None)).
+Proof. exact hb_step_is_exec. Qed.
 
 (* automatic snapshots by step count: exactly at steps_done = s0 + j*auto *)
 Theorem C06_cadence_step : forall auto s0 n x, 0 < auto ->
